@@ -292,13 +292,15 @@ class FactoryBattery:
         with warnings.catch_warnings():
             warnings.simplefilter("ignore")
             models = battery.models(("hem", "cgmy"))
-            for mname, m in models.items():
-                grid = CTMCUniformGrid(h=0.05, model=m)
+            from rpylib.grid.spatial import CTMCGridProbabilityStep
+            grids = [(mname, m, CTMCUniformGrid(h=0.05, model=m), "uniform") for mname, m in models.items()]
+            grids.append(("hem", models["hem"], CTMCGridProbabilityStep(h=0.02, model=models["hem"], minimum_probability_step=0.05), "probability-step"))
+            for mname, m, grid, gname in grids:
                 o = grid.origin_coordinate.value
                 for meth in (SamplingMethod.ALIAS, SamplingMethod.TABLE, SamplingMethod.BINARYSEARCHTREE, SamplingMethod.HUFFMANNTREE, SamplingMethod.INVERSION,
                              SamplingMethod.BINARYSEARCHTREEADAPTED1D):
                     ev += 1
-                    info = {"model": mname, "method": meth.name}
+                    info = {"model": mname, "method": meth.name, "grid": gname}
                     try:
                         def draw(order):
                             p = MarkovChainProcess(model=m, method=meth, grid=grid)
